@@ -152,7 +152,7 @@ pub fn run(args: &Args) -> i32 {
     let check = Check::new(
         args,
         "exploration",
-        "PRNG sequences of hand-sent subscription RPCs against a real gossipsub node with a whitelist, max-count, max-count(whitelist), combined(whitelist,whitelist), combined(max-count,whitelist) or max-count(combined) filter \
+        "PRNG sequences of hand-sent subscription RPCs against a real gossipsub node with a whitelist, max-count, max-count(whitelist), combined(whitelist,whitelist), combined(max-count,whitelist), combined(whitelist,max-count) or max-count(combined) filter \
          (limits 1..4 topics, 2..6 entries); tracked set read after every request; non-trivial = history with >= 1 rejected and >= 1 applied \
          request; distinct by (filter kind, request sequence)",
     );
@@ -165,7 +165,17 @@ pub fn run(args: &Args) -> i32 {
         let wl2: BTreeSet<String> = NAMES.iter().filter(|_| rng.chance(2, 3)).map(|s| s.to_string()).collect();
         let wl2_hashes: HashSet<gs::TopicHash> = wl2.iter().map(|t| gs::IdentTopic::new(t.clone()).hash()).collect();
         let both: BTreeSet<String> = wl.intersection(&wl2).cloned().collect();
-        match i % 6 {
+        match i % 7 {
+            6 => drive(
+                &check,
+                rng,
+                i,
+                Spec { kind: "combined(whitelist,max-count)", whitelist: Some(wl), max_topics: Some(max_topics), max_per_request: Some(max_req) },
+                gs::CombinedSubscriptionFilters {
+                    filter1: gs::WhitelistSubscriptionFilter(wl_hashes),
+                    filter2: gs::MaxCountSubscriptionFilter { filter: gs::AllowAllSubscriptionFilter {}, max_subscribed_topics: max_topics, max_subscriptions_per_request: max_req },
+                },
+            ),
             3 => drive(
                 &check,
                 rng,
